@@ -210,9 +210,16 @@ def run(ctx, replay=None):
             mx = rng.choice([None, None, 1, rng.randint(1, X.shape[0] + 2)])
             sorts.append((X, dim, mx))
     for X, dim, mx in sorts:
-        layers = nondominated_sort(X.copy(), dim=dim, max_items=mx, flatten=False)
-        layers = [[int(i) for i in l] for l in layers]
-        flat = [int(i) for i in nondominated_sort(X.copy(), dim=dim, max_items=mx, flatten=True)]
+        try:
+            layers = nondominated_sort(X.copy(), dim=dim, max_items=mx, flatten=False)
+            layers = [[int(i) for i in l] for l in layers]
+            flat = [int(i) for i in nondominated_sort(X.copy(), dim=dim, max_items=mx, flatten=True)]
+        except Exception as e:  # the sort returns no ranking at all for this input
+            ctx.count(("sort", X.tolist(), dim, mx))
+            ctx.violation("property", "nondominated_sort raised %s: %s (no ranking returned)" % (type(e).__name__, e),
+                          case=dict(kind="sort", X=X.tolist(), shape=list(X.shape), dim=dim, max_items=mx),
+                          signature=dict(function="nondominated_sort", raised=type(e).__name__))
+            continue
         truth = brute_layers(X)
         ctx.count(("sort", X.tolist(), dim, mx), nontrivial=len(truth) >= 2 and len(truth[0]) >= 2)
         ctx.h("sort_layers", len(truth))
@@ -257,9 +264,14 @@ def run(ctx, replay=None):
         n = X.shape[0]
         case = dict(kind="epsnet", X=X.tolist(), shape=list(X.shape), dim=dim)
         np.random.seed(rng.randrange(2 ** 31))
-        with np.errstate(all="ignore"):
-            ranks = [int(r) for r in compute_epsilon_net(X.copy(), dim=dim)]
         ctx.count(("epsnet", X.tolist(), dim), nontrivial=n >= 3)
+        try:
+            with np.errstate(all="ignore"):
+                ranks = [int(r) for r in compute_epsilon_net(X.copy(), dim=dim)]
+        except Exception as e:
+            ctx.violation("property", "compute_epsilon_net raised %s: %s" % (type(e).__name__, e),
+                          case=case, signature=dict(function="compute_epsilon_net", raised=type(e).__name__))
+            continue
         ctx.h("epsnet_items", min(n, 10))
         if sorted(ranks) != list(range(n)):
             ctx.violation("property", "compute_epsilon_net returned %s: not a permutation of 0..%d, so "
